@@ -104,7 +104,9 @@ def make_config(rng, prof_name, tier):
         tx={k: v * rng.choice((0, 1, 1, 1, 2)) if k not in ("build", "edit") else v
             for k, v in p["tx"].items()},
         max_slots=rng.randint(4, 10),
-        hypervalent=(prof_name in ("C01", "C03") and rng.random() < (0.04 if tier == "thorough" else 0.012)),
+        # eight-coordinate atoms without a descriptor cost 8! permutations per
+        # colouring: thorough tier only
+        hypervalent=(prof_name in ("C01", "C03") and tier == "thorough" and rng.random() < 0.03),
     )
     # the profile's own speciality is never switched off
     top = max(p["tx"], key=lambda k: p["tx"][k])
